@@ -10,7 +10,9 @@ MANIFEST = {
             "C29_seq_shape (iff: n-element list, consumed = sum), C29_seq_fail, C29_list_shape ([r,[[s,r]…]] for R1 % R2), "
             "C29_adjoin_touch / C29_adjoin_gap (End()==Pos of touching tokens, pair result), C29_consumed_count, C29_token, "
             "C29_keyword_is_ident_lit, C29_var, C29_conflict_detection_sound (stops only set without shared first token, up to the "
-            "keyword-vs-IDENT asymmetry of hasConflictMatchToken), C29_fuel_stable. FULL: they hold for every grammar, token list, position. "
+            "keyword-vs-IDENT asymmetry of hasConflictMatchToken), C29_first_sound (a match that consumes input starts with a token of First), "
+            "C29_commit_sound, C29_never_panics / C29_match_never_panics (no index expression out of range for compiled shapes and scanner tokens), "
+            "C29_fuel_stable. FULL: they hold for every grammar, token list, position. "
             "The model is tied to /repo by a differential run: grammar text compiled by the real tpl/parser+tpl/cl, the resulting matcher tree "
             "serialised by reflection (incl. the real stops), the real scanner's tokens, real Compiler.Match/Parse/ParseExpr "
             "(n, result tree, error, ctx.Left, ctx.LastErr) against the compiled model, plus a README shape oracle on the real results.",
@@ -24,6 +26,8 @@ RULE = ("fixed corpus (README examples, calculator, adjacency, commit cases, tpl
         "(1-3 rules, depth<=3 over token classes, operators, keywords, QSTRING/RAWSTRING, SPACE, \"\", sequence, choice, * + ? % ++, references, "
         "20% rules with a return procedure) x 3 inputs each: random derivations of the grammar with 45% near-miss edits "
         "(drop/duplicate/replace/insert token, glue) and token soup; every match in a child process with timeout; "
+        "thorough adds an exhaustive enumeration: all 633 single-rule grammars x, op x, x OP y, op(x OP y) over atoms {\"a\", \"b\", INT}, "
+        "op in {*,+,?}, OP in {sequence, |, %, ++} against all 112 inputs of <= 3 words over {a, b, 1} (blank-separated and glued); "
         "non-trivial = distinct (grammar, input) with >= 1 token")
 
 
